@@ -388,21 +388,23 @@ structure Cfg where
   minDlg : Int := 0
   v5 : Bool := true
 
-/-- `StateDB.UpdateDelegation(d, val, tokenChanged)`; returns the new state, the new validator, the
-    delegation record (if any), and the delete flag. -/
-def updateDelegation (c : Cfg) (s : St) (d : Addr) (val : Val) (delta : Int) : St × Val × Option Dlg :=
-  if delta == 0 then (s, val, none) else
-  let df? := findDlg val.dlgs d
-  if df?.isNone && delta < 0 then (s, val, none) else
-  let df := df?.getD ⟨d, 0, 0⟩
+/-- the record part of `UpdateDelegation`: new delegation record, new validator record, "delegation deleted" -/
+def delegRec (c : Cfg) (val : Val) (d : Addr) (delta : Int) : Val × Dlg × Bool :=
+  let df := (findDlg val.dlgs d).getD ⟨d, 0, 0⟩
   let tok := df.token + delta
   let stk := tok / c.unit
-  let sd := stk - df.stake
   let df' : Dlg := ⟨d, tok, stk⟩
-  let (dl, del) := updDlgFrom val.dlgs df'
-  let nv := { val with token := val.token + delta, stake := val.stake + sd, dlgs := dl }
-  let s1 := (updateValidator s nv val).1
-  (updateDelegator s1 d val.addr delta del, nv, some df')
+  let r := updDlgFrom val.dlgs df'
+  ({ val with token := val.token + delta, stake := val.stake + (stk - df.stake), dlgs := r.1 }, df', r.2)
+
+/-- `StateDB.UpdateDelegation(d, val, tokenChanged)`; returns the new state, the new validator, the
+    delegation record (if any). -/
+def updateDelegation (c : Cfg) (s : St) (d : Addr) (val : Val) (delta : Int) : St × Val × Option Dlg :=
+  if delta == 0 then (s, val, none) else
+  if (findDlg val.dlgs d).isNone && delta < 0 then (s, val, none) else
+  let r := delegRec c val d delta
+  let s1 := (updateValidator s r.1 val).1
+  (updateDelegator s1 d val.addr delta r.2.2, r.1, some r.2.1)
 
 /-! ## Take-effect handlers (staking/take_effect_handler.go) -/
 
@@ -410,14 +412,16 @@ inductive Res where
   | ok | refused | missing | crash
 deriving DecidableEq, Repr
 
+def depositRec (c : Cfg) (old : Val) (value : Int) : Val :=
+  let st := old.selfToken + value
+  let ss := st / c.unit
+  { old with selfToken := st, selfStake := ss, token := old.token + value, stake := old.stake + (ss - old.selfStake) }
+
 def teDeposit (c : Cfg) (s : St) (a : Addr) (value : Int) : St × Res :=
   match get s.vals a with
   | none => (s, .crash)          -- nil dereference in Go
   | some old =>
-    let st := old.selfToken + value
-    let ss := st / c.unit
-    let delta := ss - old.selfStake
-    let nv := { old with selfToken := st, selfStake := ss, token := old.token + value, stake := old.stake + delta }
+    let nv := depositRec c old value
     let th := c.maxStake nv.role
     if th > 0 && u64 nv.stake > th then (s, .refused)
     else ((updateValidator s nv old).1, .ok)
@@ -425,21 +429,26 @@ def teDeposit (c : Cfg) (s : St) (a : Addr) (value : Int) : St × Res :=
 def addUBD (s : St) (r : WRec) : St :=
   { s with queue := s.queue ++ [r], vj := .ubd r.op r.nonce :: s.vj }
 
+/-- the amount actually withdrawn: never more than the validator's own tokens -/
+def withdrawAmt (c : Cfg) (old : Val) (value : Int) : Int :=
+  if value > old.selfToken then old.selfToken
+  else if c.v5 && u64 ((old.selfToken - value) / c.unit) < c.minSelf old.role then old.selfToken
+  else value
+
+def withdrawRec (c : Cfg) (old : Val) (w : Int) : Val :=
+  let st := old.selfToken - w
+  let ss := st / c.unit
+  let delta := old.selfStake - ss
+  let off := old.online && (u64 ss < c.minSelf old.role || u64 old.stake < c.minStake old.role + u64 delta)
+  { old with selfToken := st, selfStake := ss, status := if off then 0 else old.status,
+             token := old.token - w, stake := old.stake - delta }
+
 def teWithdraw (c : Cfg) (s : St) (a : Addr) (value : Int) (op : Addr) (nonce : Nat) : St × Res :=
   match get s.vals a with
   | none => (s, .crash)
   | some old =>
-    let w :=
-      if value > old.selfToken then old.selfToken
-      else if c.v5 && u64 ((old.selfToken - value) / c.unit) < c.minSelf old.role then old.selfToken
-      else value
-    let st := old.selfToken - w
-    let ss := st / c.unit
-    let delta := old.selfStake - ss
-    let off := old.online && (u64 ss < c.minSelf old.role || u64 old.stake < c.minStake old.role + u64 delta)
-    let nv := { old with selfToken := st, selfStake := ss, status := if off then 0 else old.status,
-                         token := old.token - w, stake := old.stake - delta }
-    let s1 := (updateValidator s nv old).1
+    let w := withdrawAmt c old value
+    let s1 := (updateValidator s (withdrawRec c old w) old).1
     (addUBD s1 ⟨a, 0, op, nonce, w⟩, .ok)
 
 def teChangeStatus (c : Cfg) (s : St) (a : Addr) (status : Nat) : St × Res :=
@@ -466,6 +475,14 @@ def teDelegationAdd (c : Cfg) (s : St) (d a : Addr) (value : Int) : St × Res :=
     if th > 0 && u64 ((val.token + value) / c.unit) > th then (refuse, .refused)
     else ((updateDelegation c s d val value).1, .ok)
 
+/-- the amount actually withdrawn from a delegation (0 = refused) -/
+def dsubAmt (c : Cfg) (val : Val) (df : Dlg) (value : Int) : Int :=
+  let w0 := if value > df.token then df.token else value
+  if w0 ≤ 0 then 0 else
+  let remain := df.token - w0
+  if c.v5 then (if remain > 0 && remain < c.minDlg then w0 + remain else w0)
+  else (if remain > 0 && (remain < c.minDlg || !val.online) then w0 + remain else w0)
+
 def teDelegationSub (c : Cfg) (s : St) (d a : Addr) (value : Int) (nonce : Nat) : St × Res :=
   match get s.vals a with
   | none => (s, .crash)
@@ -473,17 +490,13 @@ def teDelegationSub (c : Cfg) (s : St) (d a : Addr) (value : Int) (nonce : Nat) 
     match findDlg val.dlgs d with
     | none => (s, .refused)
     | some df =>
-      let w0 := if value > df.token then df.token else value
-      if w0 ≤ 0 then (s, .refused) else
-      let remain := df.token - w0
-      let w :=
-        if c.v5 then (if remain > 0 && remain < c.minDlg then w0 + remain else w0)
-        else (if remain > 0 && (remain < c.minDlg || !val.online) then w0 + remain else w0)
-      let (s1, nv, _) := updateDelegation c s d val (-w)
+      let w := dsubAmt c val df value
+      if w ≤ 0 then (s, .refused) else
+      let r := updateDelegation c s d val (-w)
       let s2 :=
-        if nv.online && u64 nv.stake < c.minStake nv.role then
-          (updateValidator s1 { nv with status := 0 } nv).1
-        else s1
+        if r.2.1.online && u64 r.2.1.stake < c.minStake r.2.1.role then
+          (updateValidator r.1 { r.2.1 with status := 0 } r.2.1).1
+        else r.1
       (addUBD s2 ⟨a, d, d, nonce, w⟩, .ok)
 
 /-- `settleValidatorRewards` (endblock.go), validator part only (balances are C07's subject). -/
@@ -552,9 +565,16 @@ def penDlgs (unit : Int) (pens : List (Addr × Int)) : List Dlg → Int → Int 
         let (l, p', tok', stk') := penDlgs unit pens rest p tok stk
         (x :: l, p', tok', stk')
 
-/-- `takePenalty` (after /repo commit 2215675: a zero `Stake` makes the whole amount remainder instead of
-    dividing by zero; the `Option` is kept for a panic that no longer exists). -/
-def takePenalty (c : Cfg) (s : St) (val : Val) (amount : Int) : Option (St × Val) :=
+/-- `updateCounter` on the validator's own part: new (selfToken, selfStake, token, stake) -/
+def penSelf (u : Int) (val : Val) (take : Int) : Int × Int × Int × Int :=
+  if take > 0 then
+    let nt := val.selfToken - take
+    let ns := nt / u
+    (nt, ns, val.token - take, val.stake - (val.selfStake - ns))
+  else (val.selfToken, val.selfStake, val.token, val.stake)
+
+/-- the record part of `takePenalty`: new withdraw queue and new validator record -/
+def penaltyRec (c : Cfg) (queue : List WRec) (val : Val) (amount : Int) : List WRec × Val :=
   let obligation := if val.risk > 0 && val.risk ≤ 10000 then amount * val.risk / 10000 else 0
   let cur := amount - obligation
   let per := if val.stake == 0 then 0 else Int.tdiv cur val.stake
@@ -562,19 +582,24 @@ def takePenalty (c : Cfg) (s : St) (val : Val) (amount : Int) : Option (St × Va
   let selfPen := per * val.selfStake + rem + obligation
   -- Go builds a map keyed by delegator; the validator's own share is looked up under address 0
   let pens : List (Addr × Int) := (0, selfPen) :: val.dlgs.map (fun x => (x.d, per * x.stake))
-  let (q, p1, pens1) := penQueue val.addr s.queue amount pens
+  let pq := penQueue val.addr queue amount pens
+  let p1 := pq.2.1
+  let pens1 := pq.2.2
   let selfShare := ((pens1.find? (·.1 == 0)).map (·.2)).getD 0
   let take := if selfShare > 0 then imin val.selfToken selfShare else 0
-  let (st, ss, tok, stk, p2) :=
-    if take > 0 then
-      let nt := val.selfToken - take
-      let ns := nt / c.unit
-      (nt, ns, val.token - take, val.stake - (val.selfStake - ns), p1 - take)
-    else (val.selfToken, val.selfStake, val.token, val.stake, p1)
-  let (dl, _, tok', stk') := penDlgs c.unit (pens1.filter (·.1 != 0)) val.dlgs p2 tok stk
+  let ps := penSelf c.unit val take
+  let p2 := if take > 0 then p1 - take else p1
+  let pd := penDlgs c.unit (pens1.filter (·.1 != 0)) val.dlgs p2 ps.2.2.1 ps.2.2.2
   -- the deposits are only touched when the withdraw queue did not cover the penalty
-  let nv := if p1 > 0 then { val with selfToken := st, selfStake := ss, token := tok', stake := stk', dlgs := dl } else val
-  some ({ s with queue := q }, nv)
+  let nv := if p1 > 0 then
+      { val with selfToken := ps.1, selfStake := ps.2.1, token := pd.2.2.1, stake := pd.2.2.2, dlgs := pd.1 } else val
+  (pq.1, nv)
+
+/-- `takePenalty` (after /repo commit 2215675: a zero `Stake` makes the whole amount remainder instead of
+    dividing by zero; the `Option` is kept for a panic that no longer exists). -/
+def takePenalty (c : Cfg) (s : St) (val : Val) (amount : Int) : Option (St × Val) :=
+  let r := penaltyRec c s.queue val amount
+  some ({ s with queue := r.1 }, r.2)
 
 /-- `doPenalize` (inactive / double sign: offline + expelled) -/
 def penalize (c : Cfg) (s : St) (a : Addr) (amount : Int) : St × Res :=
